@@ -281,3 +281,27 @@ Proof.
   - change 0 with (Z.of_nat 0). rewrite (orth_run_tie conv2pos Hid dims s Hd ltac:(lia)). reflexivity.
   - exact (C16_orth_holds dims s Hd Hs Hdiv).
 Qed.
+
+(* ================================================================ finding F-D5 for the generated code (C08)
+   the `while True` of the diagonal iterate recomputes the pointer from the unchanged nth_trial: when a pass has just
+   finished (nth_trial = 4 on a 1x4 space, step 1) the restart pointer is `pointer % 1 + 1 = 1` on every round, so a
+   constraint that excludes position [1] (3/4 of the space stays feasible) makes the loop spin: for EVERY amount of
+   fuel the translated iterate runs out of it *)
+Definition d5_state (p : Z) : g_diag := mkGDiag [0] p (Some 1) 1 4 [4] 4 1.
+Definition d5_cons (q : pos) : bool := negb (pos_eqb q [1]).
+
+Theorem source_diag_livelock : forall fuel p mr,
+  g_diag_iterate 1 d5_cons (fun q => q) mr fuel (d5_state p) = Err OutOfFuel.
+Proof.
+  intros fuel p mr. unfold g_diag_iterate. generalize fuel at 2. intros F. revert p.
+  match goal with |- forall p, py_while_ret _ ?B _ = _ => set (body := B) end.
+  assert (HB : forall p, body (d5_state p) = Ok (inl (d5_state 1))).
+  { intros p. unfold body, d5_state.
+    cbn [dg_direction_calc py_is_none dg_high_dim_pointer dg_step_size dg_nth_trial dg_search_space_size].
+    unfold py_mod, py_floordiv. cbn [Z.eqb bind]. rewrite Z.mod_1_r. cbn. reflexivity. }
+  induction fuel as [|f IH]; intros p; [reflexivity|]. cbn [py_while_ret]. rewrite HB. cbn [bind]. apply IH.
+Qed.
+
+(* three of the four points are feasible *)
+Lemma d5_feasible_fraction : map d5_cons [[0]; [1]; [2]; [3]] = [true; false; true; true].
+Proof. reflexivity. Qed.
